@@ -10,7 +10,7 @@ MARKED = [('HPs<3>', '_hp_m1'), ('HEs<3>', '_he_m1'), ('EBR', '_ebr_m1')]
 MARKED_ALL = MARKED + [('HPd<1>', '_hpd_m1'), ('QSBR', '_qsbr_m1'), ('STAMP', '_stamp_m1')]
 def harnesses(tier):
     # the same client with one mark bit in its concurrent_ptrs (XV_MARKBITS=1): a second thread toggles only the mark
-    return rc.harnesses('thorough', only=None if tier == 'thorough' else SFX_QUICK) + [('recl', ('XV_RECL=%s' % a, 'XV_MARKBITS=1'), False, sfx) for a, sfx in (MARKED_ALL if tier == 'thorough' else MARKED)]
+    return [('cptr', ('XV_RECL=EBR',), False, '')] + rc.harnesses('thorough', only=None if tier == 'thorough' else SFX_QUICK) + [('recl', ('XV_RECL=%s' % a, 'XV_MARKBITS=1'), False, sfx) for a, sfx in (MARKED_ALL if tier == 'thorough' else MARKED)]
 HARNESSES = harnesses('quick')
 ASSUMPTIONS = [
     'marked_ptr: the theorems are about the Gallina functions generated from marked_ptr.hpp/utils.hpp; the generated functions are additionally run against the compiled C++ on random and boundary inputs for 14 (MarkBits, MaxUpperMarkBits) instantiations in every run',
@@ -97,6 +97,20 @@ def run(ctx):
     rng, tier = ctx['rng'], ctx['tier']
     thorough = tier == 'thorough'
     tie = marked_ptr_differential(ctx)
+    # concurrent_ptr conformance: every operation with every memory order (pair) on a concurrent_ptr and on a std::atomic<marked_ptr>:
+    # identical atomic accesses (kind, orders, values) and identical results
+    Hc = ctx['H'].pop('cptr')
+    txt = X.case_text({'x': '1'}, [['conf']])
+    (st, det), out = X.replay_case(Hc, txt, ctx['wd'], ('--trace',))
+    import re as _re
+    m = _re.search(r'conf -> ok:(\d+)', out)
+    ctx['cov']['concurrent_ptr_conformance'] = {'status': st, 'operations_compared': int(m.group(1)) if m else 0}
+    ctx['cov']['evaluations'] = ctx['cov'].get('evaluations', 0) + (int(m.group(1)) if m else 0)
+    log('concurrent_ptr conformance: status=%d %s' % (st, m.group(0) if m else det))
+    if st != 0:
+        report_impl(ctx, st, det, txt, {'harness': 'cptr'})
+    elif not m:
+        report_impl(ctx, 7, 'concurrent_ptr conformance run produced no result', txt, {'harness': 'cptr'})
     n = 400 if thorough else 60
     for name, H in sorted(ctx['H'].items()):
         if name.endswith('_m1'):
